@@ -6,7 +6,7 @@ from asyncfix.connection import ConnectionState
 from asyncfix.errors import FIXConnectionError
 from asyncfix.journaler import Journaler
 from asyncfix.message import FIXMessage, MessageDirection
-from vlib.reffix import ref_check_frame
+from vlib.reffix import reassemble, ref_check_frame
 from vlib.simnet import EOF, World
 
 DISC = (ConnectionState.DISCONNECTED_NOCONN_TODAY, ConnectionState.DISCONNECTED_WCONN_TODAY, ConnectionState.DISCONNECTED_BROKEN_CONN)
@@ -167,7 +167,7 @@ class Duo:
             for side in ("c", "s"):
                 wr = link.writers[side].written
                 k = self._wpos.get((li, side), 0)
-                for _, fr in wr[k:]:
+                for fr in reassemble([x for _, x in wr[k:]]):
                     self.frames_checked += 1
                     why = ref_check_frame(fr)
                     if why:
